@@ -21,19 +21,22 @@ structure GInv0 (l : LState) (g : Ghost) : Prop where
   relsNd : g.rels.Nodup
   relsLen : g.rels.length = relCount l.st.outgoingRel
   q2 : ∀ i : Nat, i ∈ g.inQos2 ↔ i ∈ l.st.incomingPub
+  al : ∀ a : Nat, a ∈ g.aliases ↔ a ∈ l.st.aliases
 
 theorem GInv0.new (ver : Version) (max : Nat) (m : Bool) :
     GInv0 (LState.new ver max m) (Ghost.init ver max m) := by
-  refine ⟨rfl, ?_, rfl, rfl, rfl, rfl, rfl, rfl, rfl, ?_, by simp [Ghost.init], ?_, by simp [Ghost.init, LState.new, State.new]⟩
+  refine ⟨rfl, ?_, rfl, rfl, rfl, rfl, rfl, rfl, rfl, ?_, by simp [Ghost.init], ?_, by simp [Ghost.init, LState.new, State.new],
+    by simp [Ghost.init, LState.new, State.new]⟩
   · simp only [Ghost.init, LState.new]
     cases hl : cleanRequests (State.new ver max m) with
     | nil => rfl
     | cons r rest =>
       have : r ∈ cleanRequests (State.new ver max m) := by rw [hl]; simp
-      rw [mem_cleanRequests] at this
-      rcases this with ⟨p, _, hp⟩ | ⟨i, _, hi⟩
+      rw [mem_cleanRequests (SInv.new ver max m)] at this
+      rcases this with ⟨p, _, hp⟩ | ⟨i, _, hi⟩ | ⟨c, hc, _⟩
       · simp [State.new] at hp
       · rw [relContains_eq] at hi; simp [State.new, List.getElem?_replicate] at hi
+      · simp [State.new] at hc
   · intro i
     simp only [Ghost.init, LState.new, List.not_mem_nil, false_iff]
     intro hi; rw [relContains_eq] at hi; simp [State.new, List.getElem?_replicate] at hi
@@ -173,13 +176,20 @@ def relsAfterIn (R : List Nat) (p : Incoming) (o : Outcome) : List Nat :=
 
 theorem released_rels (g : Ghost) (p : Incoming) (o : Outcome) :
     ((g.stepIn p).released o).rels = relsAfterIn g.rels p o := by
-  unfold Ghost.released relsAfterIn Ghost.stepIn
-  cases p <;> cases o <;> (try rfl)
-  all_goals (rename_i pk; cases pk <;> (try rfl))
-  all_goals (rename_i pk; cases pk <;> (try rfl))
-  all_goals (try (simp only; split <;> rfl))
-  all_goals (try (simp only; split <;> split <;> rfl))
-
+  have hrel : ∀ g' : Ghost, (g'.released o).rels =
+      match o with
+      | .ok (some (.pubrel j)) => addRel g'.rels j
+      | _ => g'.rels := by
+    intro g'; unfold Ghost.released; (repeat' split) <;> simp_all
+  have hin : (g.stepIn p).rels =
+      match p with
+      | .pubcomp i _ => g.rels.filter (· != i)
+      | _ => g.rels := by
+    unfold Ghost.stepIn
+    cases p <;> simp only <;> (repeat' split) <;> rfl
+  rw [hrel, hin]
+  unfold relsAfterIn
+  cases p <;> rfl
 
 theorem relsAfterIn_other (R : List Nat) (p : Incoming) (o : Outcome)
     (hp : ∀ i r, p ≠ .pubcomp i r) (ho : ∀ j, o ≠ .ok (some (.pubrel j))) : relsAfterIn R p o = R := by
@@ -187,29 +197,10 @@ theorem relsAfterIn_other (R : List Nat) (p : Incoming) (o : Outcome)
   cases p <;> simp_all
   all_goals (split <;> simp_all)
 
-theorem RelsOK.handlePuback {R : List Nat} {s : State} (h : RelsOK R s) (i r : Nat) :
-    RelsOK R (handlePuback s i r).1 ∧ ∀ j, (handlePuback s i r).2 ≠ .ok (some (.pubrel j)) := by
-  unfold Client.handlePuback
-  split
-  · exact ⟨h, by simp⟩
-  · have h1 : RelsOK R (if s.ver = Version.v4 then { s with lastPuback := i } else s) := by
-      split
-      · exact h.congr rfl
-      · exact h
-    generalize (if s.ver = Version.v4 then { s with lastPuback := i } else s) = s1 at h1
-    simp only
-    split
-    · exact ⟨h1, by simp⟩
-    · split
-      · exact ⟨h1, by simp⟩
-      · split
-        · exact ⟨h1.congr rfl, by simp⟩
-        · unfold pubackCollision
-          split
-          · split
-            · exact ⟨h1.congr rfl, by simp⟩
-            · exact ⟨h1.congr rfl, by simp⟩
-          · exact ⟨h1.congr rfl, by simp⟩
+theorem RelsOK.handlePuback {R : List Nat} {s : State} (h : RelsOK R s) (i : Nat) :
+    RelsOK R (handlePuback s i).1 ∧ ∀ j, (handlePuback s i).2 ≠ .ok (some (.pubrel j)) := by
+  obtain ⟨_, _, _, _, _, _, a7, _, a9⟩ := handlePuback_fields s i
+  exact ⟨h.congr a7, a9⟩
 
 theorem RelsOK.handlePubrec {R : List Nat} {s : State} (h : RelsOK R s) (hs : SInv s) (i r : Nat) :
     RelsOK (relsAfterIn R (.pubrec i r) (handlePubrec s i r).2) (handlePubrec s i r).1 := by
@@ -222,12 +213,17 @@ theorem RelsOK.handlePubrec {R : List Nat} {s : State} (h : RelsOK R s) (hs : SI
       have := hs.lenPub; have := hs.lenRel; have := getElem?_lt_of_some hslot; omega
     simp only
     split
-    · simpa [relsAfterIn] using h.congr (s' := { s with outgoingPub := s.outgoingPub.set i none }) rfl
-    · simp only [relsAfterIn]
+    · split
+      · simpa [relsAfterIn] using h.congr (s' := { s with outgoingPub := s.outgoingPub.set i none }) rfl
+      · obtain ⟨_, _, _, _, _, _, a7, _, a9⟩ := release_fields
+          { s with outgoingPub := s.outgoingPub.set i none, inflight := s.inflight - 1 } i
+        rw [relsAfterIn_other _ _ _ (by simp) a9]
+        exact h.congr a7
+    · simp only [relsAfterIn, hlt, if_true]
       exact h.set_true i hlt rfl
 
 theorem RelsOK.handlePubcomp {R : List Nat} {s : State} (h : RelsOK R s) (i r : Nat) :
-    RelsOK (relsAfterIn R (.pubcomp i r) (handlePubcomp s i r).2) (handlePubcomp s i r).1 := by
+    RelsOK (relsAfterIn R (.pubcomp i r) (handlePubcomp s i).2) (handlePubcomp s i).1 := by
   have key : ∀ o : Outcome, (∀ j, o ≠ .ok (some (.pubrel j))) →
       relsAfterIn R (.pubcomp i r) o = R.filter (· != i) := by
     intro o ho
@@ -241,53 +237,36 @@ theorem RelsOK.handlePubcomp {R : List Nat} {s : State} (h : RelsOK R s) (i r : 
     | panic => rfl
   unfold Client.handlePubcomp
   split
-  · unfold handlePubcompV4
+  · rename_i hc
     split
-    · rename_i hc
-      split
-      · rw [key _ (by simp)]; exact h.set_false i hc rfl
-      · simp only
-        split
-        · split
-          · rw [key _ (by simp)]; exact h.set_false i hc rfl
-          · rw [key _ (by simp)]; exact h.set_false i hc rfl
-        · rw [key _ (by simp)]; exact h.set_false i hc rfl
-    · rename_i hc
-      rw [key _ (by simp), h.filter_absent i (by simpa using hc)]; exact h
-  · unfold handlePubcompV5
-    have h1 : RelsOK R (pubcompTakeCollision s i) := h.congr (pubcompTakeCollision_fields s i).2.2.2.2.2.1
-    have hk : ∀ j, (pubcompTaken s i : Option Packet) ≠ some (.pubrel j) := by
-      intro j; unfold pubcompTaken; split <;> (try split) <;> simp
-    generalize pubcompTakeCollision s i = s1 at h1
-    simp only
-    split
-    · rename_i hc
-      split
-      · rw [key _ (by simp)]; exact h1.set_false i hc rfl
-      · split
-        · rw [key _ (by simp)]; exact h1.set_false i hc rfl
-        · rw [key _ (by intro j hj; simp at hj; exact hk j hj)]; exact h1.set_false i hc rfl
-    · rename_i hc
-      rw [key _ (by simp), h1.filter_absent i (by simpa using hc)]; exact h1
+    · rw [key _ (by simp)]; exact h.set_false i hc rfl
+    · obtain ⟨_, _, _, _, _, _, a7, _, a9⟩ := release_fields
+        { s with outgoingRel := s.outgoingRel.set i false, inflight := s.inflight - 1 } i
+      rw [key _ a9]
+      exact h.set_false i hc a7
+  · rename_i hc
+    rw [key _ (by simp), h.filter_absent i (by simpa using hc)]; exact h
 
 theorem handlePublish_outcome (s : State) (p : InPub) :
     (∀ j, (handlePublish s p).2 ≠ .ok (some (.pubrel j))) ∧ (∀ q, (handlePublish s p).2 ≠ .ok (some (.publish q))) := by
   unfold handlePublish
-  simp only [outgoingPuback, outgoingPubrec]
+  simp only [outgoingPuback, outgoingPubrec, outgoingDisconnect]
   (repeat' split) <;> simp
 
-theorem handlePubrel_fields (s : State) (i r : Nat) :
-    (handlePubrel s i r).1.outgoingRel = s.outgoingRel ∧ (handlePubrel s i r).1.outgoingPub = s.outgoingPub ∧
-    (handlePubrel s i r).1.inflight = s.inflight ∧ (handlePubrel s i r).1.collision = s.collision ∧
-    (handlePubrel s i r).1.maxInflight = s.maxInflight ∧ (handlePubrel s i r).1.lastPuback = s.lastPuback ∧
-    (∀ j, (handlePubrel s i r).2 ≠ .ok (some (.pubrel j))) ∧ (∀ q, (handlePubrel s i r).2 ≠ .ok (some (.publish q))) := by
+theorem handlePubrel_fields (s : State) (i : Nat) :
+    (handlePubrel s i).1.outgoingRel = s.outgoingRel ∧ (handlePubrel s i).1.outgoingPub = s.outgoingPub ∧
+    (handlePubrel s i).1.inflight = s.inflight ∧ (handlePubrel s i).1.collision = s.collision ∧
+    (handlePubrel s i).1.maxInflight = s.maxInflight ∧ (handlePubrel s i).1.aliases = s.aliases ∧
+    (handlePubrel s i).1.outgoingOrder = s.outgoingOrder ∧ (handlePubrel s i).1.outgoingCount = s.outgoingCount ∧
+    (∀ j, (handlePubrel s i).2 ≠ .ok (some (.pubrel j))) ∧ (∀ q, (handlePubrel s i).2 ≠ .ok (some (.publish q))) := by
   unfold handlePubrel
   (repeat' split) <;> simp [State.pushOut, State.pushEv]
 
 theorem handleConnack_fields (s : State) (ok : Bool) (rm am : Option Nat) :
     (handleConnack s ok rm am).1.outgoingRel = s.outgoingRel ∧ (handleConnack s ok rm am).1.outgoingPub = s.outgoingPub ∧
     (handleConnack s ok rm am).1.inflight = s.inflight ∧ (handleConnack s ok rm am).1.collision = s.collision ∧
-    (handleConnack s ok rm am).1.incomingPub = s.incomingPub ∧ (handleConnack s ok rm am).1.lastPuback = s.lastPuback ∧
+    (handleConnack s ok rm am).1.incomingPub = s.incomingPub ∧ (handleConnack s ok rm am).1.aliases = s.aliases ∧
+    (handleConnack s ok rm am).1.outgoingOrder = s.outgoingOrder ∧ (handleConnack s ok rm am).1.outgoingCount = s.outgoingCount ∧
     (∀ j, (handleConnack s ok rm am).2 ≠ .ok (some (.pubrel j))) ∧ (∀ q, (handleConnack s ok rm am).2 ≠ .ok (some (.publish q))) := by
   unfold handleConnack
   split
@@ -306,21 +285,21 @@ theorem RelsOK.handleIncoming {R : List Nat} {s : State} (h : RelsOK R s) (hs : 
   | pubrec i r => exact h0.handlePubrec hs0 i r
   | pubcomp i r => exact h0.handlePubcomp i r
   | puback i r =>
-    have := h0.handlePuback i r
+    have := h0.handlePuback i
     rw [relsAfterIn_other _ _ _ (by simp) this.2]; exact this.1
   | publish q =>
     rw [relsAfterIn_other _ _ _ (by simp) (handlePublish_outcome s0 q).1]
     exact h0.congr (handlePublish_fields s0 q).2.2.2.2.1
   | pubrel i r =>
-    have := handlePubrel_fields s0 i r
-    rw [relsAfterIn_other _ _ _ (by simp) this.2.2.2.2.2.2.1]
+    have := handlePubrel_fields s0 i
+    rw [relsAfterIn_other _ _ _ (by simp) this.2.2.2.2.2.2.2.2.1]
     exact h0.congr this.1
   | connack ok sp rm am =>
     simp only
     split
     · rw [relsAfterIn_other _ _ _ (by simp) (by simp)]; exact h0
     · have := handleConnack_fields s0 ok rm am
-      rw [relsAfterIn_other _ _ _ (by simp) this.2.2.2.2.2.2.1]
+      rw [relsAfterIn_other _ _ _ (by simp) this.2.2.2.2.2.2.2.2.1]
       exact h0.congr this.1
   | pingresp => rw [relsAfterIn_other _ _ _ (by simp) (by simp)]; exact h0.congr rfl
   | suback _ => rw [relsAfterIn_other _ _ _ (by simp) (by simp)]; exact h0
@@ -332,110 +311,222 @@ theorem RelsOK.handleIncoming {R : List Nat} {s : State} (h : RelsOK R s) (hs : 
   | pingreq => rw [relsAfterIn_other _ _ _ (by simp) (by simp)]; exact h0
   | auth => rw [relsAfterIn_other _ _ _ (by simp) (by simp)]; exact h0
 
+/-! ### topic aliases of incoming publishes (v5) -/
+
+/-- the ghost and the state agree on which publish is a protocol error -/
+theorem protocolError_iff (g : Ghost) (s : State) (q : InPub) (hv : g.ver = s.ver)
+    (ha : ∀ a : Nat, a ∈ g.aliases ↔ a ∈ s.aliases) :
+    protocolError g q = true ↔ publishAlias s q = none := by
+  unfold protocolError publishAlias
+  rw [hv]
+  cases s.ver with
+  | v4 => simp
+  | v5 =>
+    cases hal : q.alias with
+    | none => simp
+    | some a =>
+      have hc : g.aliases.contains a = s.aliases.contains a := by
+        cases h1 : s.aliases.contains a with
+        | true => simpa using (ha a).mpr (by simpa using h1)
+        | false =>
+          cases h2 : g.aliases.contains a with
+          | false => rfl
+          | true => have := (ha a).mp (by simpa using h2); simp at h1; exact absurd this h1
+      simp only [hc]
+      cases q.topicEmpty <;> cases s.aliases.contains a <;> simp
+
+def aliasesAfter (g : Ghost) : Incoming → List Nat
+  | .publish q =>
+    if protocolError g q then g.aliases else
+    (match g.ver, q.alias with
+     | .v5, some a => if q.topicEmpty then g.aliases else addRel g.aliases a
+     | _, _ => g.aliases)
+  | _ => g.aliases
+
+theorem stepIn_aliases (g : Ghost) (p : Incoming) (o : Outcome) :
+    ((g.stepIn p).released o).aliases = aliasesAfter g p := by
+  have h1 : ∀ g' : Ghost, (g'.released o).aliases = g'.aliases := by
+    intro g'; unfold Ghost.released; (repeat' split) <;> rfl
+  rw [h1]
+  unfold Ghost.stepIn aliasesAfter
+  cases p <;> (try rfl)
+  all_goals (simp only; (repeat' split) <;> simp_all)
+
+theorem publishAlias_aliases {s s1 : State} {q : InPub} (h : publishAlias s q = some s1) (a : Nat) :
+    a ∈ s1.aliases ↔
+      (match s.ver, q.alias with
+       | .v5, some b => if q.topicEmpty then a ∈ s.aliases else (a = b ∨ a ∈ s.aliases)
+       | _, _ => a ∈ s.aliases) := by
+  unfold publishAlias at h
+  cases hv : s.ver with
+  | v4 => rw [hv] at h; simp only at h; cases h; rfl
+  | v5 =>
+    rw [hv] at h; simp only at h
+    cases hal : q.alias with
+    | none => rw [hal] at h; simp only at h; cases h; rfl
+    | some b =>
+      rw [hal] at h; simp only at h
+      cases ht : q.topicEmpty with
+      | true =>
+        simp only [ht, Bool.not_true, Bool.false_eq_true, if_false] at h
+        split at h
+        · cases h; simp
+        · cases h
+      | false =>
+        simp only [ht, Bool.not_false, if_true] at h
+        cases h
+        simp only [Bool.false_eq_true, if_false]
+        by_cases hc : s.aliases.contains b = true
+        · have : b ∈ s.aliases := by simpa using hc
+          simp only [hc, if_true]
+          constructor
+          · intro h'; exact Or.inr h'
+          · rintro (rfl | h') <;> assumption
+        · have hnb : b ∉ s.aliases := by simpa using hc
+          simp [hnb]
+
+theorem handlePublish_aliases (s : State) (q : InPub) :
+    (handlePublish s q).1.aliases = match publishAlias s q with | some s1 => s1.aliases | none => s.aliases := by
+  unfold handlePublish
+  cases publishAlias s q with
+  | none => simp [outgoingDisconnect, State.pushOut, State.pushEv]
+  | some s1 =>
+    simp only [outgoingPuback, outgoingPubrec]
+    (repeat' split) <;> simp_all [State.pushOut, State.pushEv]
+
+theorem al_handleIncoming (g : Ghost) (s : State) (p : Incoming) (hv : g.ver = s.ver)
+    (h : ∀ a : Nat, a ∈ g.aliases ↔ a ∈ s.aliases) :
+    ∀ a : Nat, a ∈ aliasesAfter g p ↔ a ∈ (handleIncoming s p).1.aliases := by
+  unfold handleIncoming
+  have h0 : ∀ a : Nat, a ∈ g.aliases ↔ a ∈ (s.pushEv (.incoming p)).aliases := h
+  have hv0 : g.ver = (s.pushEv (.incoming p)).ver := hv
+  generalize s.pushEv (.incoming p) = s0 at h0 hv0
+  simp only
+  cases p with
+  | publish q =>
+    intro a
+    rw [handlePublish_aliases]
+    unfold aliasesAfter
+    have hpe := protocolError_iff g s0 q hv0 h0
+    cases hal : publishAlias s0 q with
+    | none => simp only [hpe.mpr hal, if_true]; exact h0 a
+    | some s1 =>
+      have : protocolError g q = false := by
+        cases hp : protocolError g q with
+        | false => rfl
+        | true => rw [hpe.mp hp] at hal; cases hal
+      simp only [this, Bool.false_eq_true, if_false]
+      rw [publishAlias_aliases hal a, hv0]
+      cases s0.ver with
+      | v4 => exact h0 a
+      | v5 =>
+        cases q.alias with
+        | none => exact h0 a
+        | some b =>
+          simp only
+          split
+          · exact h0 a
+          · rw [mem_addRel, h0 a]
+  | puback i r => intro a; rw [(handlePuback_fields s0 i).2.2.2.2.2.2.2.1]; exact h0 a
+  | pubrec i r => intro a; rw [(handlePubrec_fields s0 i r).2.2.2.2.2.2]; exact h0 a
+  | pubrel i r => intro a; rw [(handlePubrel_fields s0 i).2.2.2.2.2.1]; exact h0 a
+  | pubcomp i r => intro a; rw [(handlePubcomp_fields s0 i).2.2.2.2.2.2.1]; exact h0 a
+  | connack ok sp rm am =>
+    intro a
+    simp only
+    split
+    · exact h0 a
+    · rw [(handleConnack_fields s0 ok rm am).2.2.2.2.2.1]; exact h0 a
+  | pingresp => exact h0
+  | suback _ => exact h0
+  | unsuback _ => exact h0
+  | disconnect _ => intro i; simp only; split <;> exact h0 i
+  | connect => exact h0
+  | subscribe => exact h0
+  | unsubscribe => exact h0
+  | pingreq => exact h0
+  | auth => exact h0
 
 /-! ### incoming QoS 2 ids -/
 
-def q2After (Q : List Nat) : Incoming → List Nat
-  | .publish q => if q.qos = 0 || q.qos = 1 then Q else addRel Q q.pkid
-  | .pubrel i _ => Q.filter (· != i)
-  | _ => Q
+def q2After (g : Ghost) : Incoming → List Nat
+  | .publish q => if protocolError g q then g.inQos2 else if q.qos = 0 || q.qos = 1 then g.inQos2 else addRel g.inQos2 q.pkid
+  | .pubrel i _ => g.inQos2.filter (· != i)
+  | _ => g.inQos2
 
 theorem stepIn_inQos2 (g : Ghost) (p : Incoming) (o : Outcome) :
-    ((g.stepIn p).released o).inQos2 = q2After g.inQos2 p := by
+    ((g.stepIn p).released o).inQos2 = q2After g p := by
   have h1 : ∀ g' : Ghost, (g'.released o).inQos2 = g'.inQos2 := by
     intro g'; unfold Ghost.released; (repeat' split) <;> rfl
   rw [h1]
   unfold Ghost.stepIn q2After
   cases p <;> (try rfl)
-  all_goals (simp only; (repeat' split) <;> rfl)
-
-theorem handlePuback_incomingPub (s : State) (i r : Nat) :
-    (handlePuback s i r).1.incomingPub = s.incomingPub ∧ (handlePuback s i r).1.maxInflight = s.maxInflight := by
-  unfold handlePuback
-  split
-  · exact ⟨rfl, rfl⟩
-  · have h1 : (if s.ver = Version.v4 then { s with lastPuback := i } else s).incomingPub = s.incomingPub ∧
-        (if s.ver = Version.v4 then { s with lastPuback := i } else s).maxInflight = s.maxInflight := by
-      split <;> exact ⟨rfl, rfl⟩
-    generalize (if s.ver = Version.v4 then { s with lastPuback := i } else s) = s1 at h1
-    simp only
-    split
-    · exact h1
-    · split
-      · exact h1
-      · split
-        · exact h1
-        · unfold pubackCollision
-          split
-          · split
-            · exact h1
-            · exact h1
-          · exact h1
-
-theorem handlePubrec_incomingPub (s : State) (i r : Nat) :
-    (handlePubrec s i r).1.incomingPub = s.incomingPub ∧ (handlePubrec s i r).1.maxInflight = s.maxInflight := by
-  unfold handlePubrec
-  split
-  · exact ⟨rfl, rfl⟩
-  · exact ⟨rfl, rfl⟩
-  · simp only
-    split
-    · exact ⟨rfl, rfl⟩
-    · split <;> exact ⟨rfl, rfl⟩
+  all_goals (simp only; (repeat' split) <;> simp_all)
 
 theorem handlePublish_incomingPub (s : State) (q : InPub) (i : Nat) :
     i ∈ (handlePublish s q).1.incomingPub ↔
-      (if q.qos = 0 ∨ q.qos = 1 then i ∈ s.incomingPub else (i = q.pkid ∨ i ∈ s.incomingPub)) := by
-  have hf := (publishAlias_fields s q).2.2.2.2.1
+      (if publishAlias s q = none then i ∈ s.incomingPub
+       else if q.qos = 0 ∨ q.qos = 1 then i ∈ s.incomingPub else (i = q.pkid ∨ i ∈ s.incomingPub)) := by
   unfold handlePublish
-  simp only [outgoingPuback, outgoingPubrec]
-  generalize publishAlias s q = s1 at hf ⊢
-  by_cases hq0 : q.qos = 0
-  · simp [hq0, hf]
-  · by_cases hq1 : q.qos = 1
-    · cases hm : s1.manualAcks <;> simp [hq1, hm, State.pushOut, State.pushEv, hf]
-    · by_cases hc : s1.incomingPub.contains q.pkid = true
-      · have hm : q.pkid ∈ s.incomingPub := by rw [← hf]; simpa using hc
-        have hor : (i = q.pkid ∨ i ∈ s.incomingPub) ↔ i ∈ s.incomingPub := by
-          constructor
-          · rintro (rfl | h') <;> assumption
-          · intro h'; exact Or.inr h'
-        cases hma : s1.manualAcks <;> simp [hq0, hq1, hm, hma, State.pushOut, State.pushEv, hf, hor]
-      · have hm : q.pkid ∉ s.incomingPub := by rw [← hf]; simpa using hc
-        cases hma : s1.manualAcks <;> simp [hq0, hq1, hm, State.pushOut, State.pushEv, hf]
+  cases hal : publishAlias s q with
+  | none => simp [outgoingDisconnect, State.pushOut, State.pushEv]
+  | some s1 =>
+    have hf := (publishAlias_fields hal).2.2.2.2.1
+    simp only [outgoingPuback, outgoingPubrec, reduceCtorEq, if_false]
+    by_cases hq0 : q.qos = 0
+    · simp [hq0, hf]
+    · by_cases hq1 : q.qos = 1
+      · cases hm : s1.manualAcks <;> simp [hq1, hm, State.pushOut, State.pushEv, hf]
+      · by_cases hc : s1.incomingPub.contains q.pkid = true
+        · have hm : q.pkid ∈ s.incomingPub := by rw [← hf]; simpa using hc
+          have hor : (i = q.pkid ∨ i ∈ s.incomingPub) ↔ i ∈ s.incomingPub := by
+            constructor
+            · rintro (rfl | h') <;> assumption
+            · intro h'; exact Or.inr h'
+          cases hma : s1.manualAcks <;> simp [hq0, hq1, hm, hma, State.pushOut, State.pushEv, hf, hor]
+        · have hm : q.pkid ∉ s.incomingPub := by rw [← hf]; simpa using hc
+          cases hma : s1.manualAcks <;> simp [hq0, hq1, hm, State.pushOut, State.pushEv, hf]
 
-theorem q2_handleIncoming (Q : List Nat) (s : State) (p : Incoming) (h : ∀ i : Nat, i ∈ Q ↔ i ∈ s.incomingPub) :
-    ∀ i : Nat, i ∈ q2After Q p ↔ i ∈ (handleIncoming s p).1.incomingPub := by
+theorem q2_handleIncoming (g : Ghost) (s : State) (p : Incoming) (hv : g.ver = s.ver)
+    (ha : ∀ a : Nat, a ∈ g.aliases ↔ a ∈ s.aliases) (h : ∀ i : Nat, i ∈ g.inQos2 ↔ i ∈ s.incomingPub) :
+    ∀ i : Nat, i ∈ q2After g p ↔ i ∈ (handleIncoming s p).1.incomingPub := by
   unfold handleIncoming
-  have h0 : ∀ i : Nat, i ∈ Q ↔ i ∈ (s.pushEv (.incoming p)).incomingPub := h
-  generalize s.pushEv (.incoming p) = s0 at h0
+  have h0 : ∀ i : Nat, i ∈ g.inQos2 ↔ i ∈ (s.pushEv (.incoming p)).incomingPub := h
+  have ha0 : ∀ a : Nat, a ∈ g.aliases ↔ a ∈ (s.pushEv (.incoming p)).aliases := ha
+  have hv0 : g.ver = (s.pushEv (.incoming p)).ver := hv
+  generalize s.pushEv (.incoming p) = s0 at h0 ha0 hv0
   simp only
   cases p with
   | publish q =>
     intro i
     rw [handlePublish_incomingPub s0 q i]
     unfold q2After
-    by_cases hq : q.qos = 0 ∨ q.qos = 1
-    · have : (decide (q.qos = 0) || decide (q.qos = 1)) = true := by simpa using hq
-      simp only [this, if_true, hq]; exact h0 i
-    · have : (decide (q.qos = 0) || decide (q.qos = 1)) = false := by simpa using hq
-      simp only [this, hq, if_false, Bool.false_eq_true]
-      rw [mem_addRel, h0 i]
+    have hpe := protocolError_iff g s0 q hv0 ha0
+    by_cases hp : protocolError g q = true
+    · simp only [hp, if_true, hpe.mp hp]; exact h0 i
+    · have hn : ¬ publishAlias s0 q = none := fun h' => hp (hpe.mpr h')
+      simp only [hp, hn, if_false]
+      by_cases hq : q.qos = 0 ∨ q.qos = 1
+      · have : (decide (q.qos = 0) || decide (q.qos = 1)) = true := by simpa using hq
+        simp only [this, if_true, hq]; exact h0 i
+      · have : (decide (q.qos = 0) || decide (q.qos = 1)) = false := by simpa using hq
+        simp only [this, hq, if_false, Bool.false_eq_true]
+        rw [mem_addRel, h0 i]
   | pubrel j r =>
     intro i
     unfold handlePubrel q2After
     by_cases hc : s0.incomingPub.contains j = true
     · simp only [hc, if_true]
-      split <;> simp [State.pushOut, State.pushEv, List.mem_filter, h0]
+      simp [State.pushOut, State.pushEv, List.mem_filter, h0]
     · simp only [hc]
       have : j ∉ s0.incomingPub := by simpa using hc
       simp only [List.mem_filter, h0 i]
       constructor
       · intro h'; exact h'.1
       · intro h'; exact ⟨h', by simp; intro hij; subst hij; exact this h'⟩
-  | puback j r => intro i; rw [(handlePuback_incomingPub s0 j r).1]; exact h0 i
-  | pubrec j r => intro i; rw [(handlePubrec_incomingPub s0 j r).1]; exact h0 i
-  | pubcomp j r => intro i; rw [(handlePubcomp_fields s0 j r).2.2.2.2.1]; exact h0 i
+  | puback j r => intro i; rw [(handlePuback_fields s0 j).2.2.2.2.1]; exact h0 i
+  | pubrec j r => intro i; rw [(handlePubrec_fields s0 j r).2.2.2.2.1]; exact h0 i
+  | pubcomp j r => intro i; rw [(handlePubcomp_fields s0 j).2.2.2.2.1]; exact h0 i
   | connack ok sp rm am =>
     intro i
     simp only
@@ -452,13 +543,12 @@ theorem q2_handleIncoming (Q : List Nat) (s : State) (p : Incoming) (h : ∀ i :
   | pingreq => exact h0
   | auth => exact h0
 
-
 /-! ### projections of the ghost step -/
 
 theorem stepOut_pending (g : Ghost) (r : Request) (o : Outcome) :
     (g.stepOut r o).pending =
       match r with
-      | .publish p => if p.pkid == 0 then g.pending else eraseFirst g.pending (.publish p)
+      | .publish p => eraseFirst g.pending (.publish p)
       | .pubrel i => eraseFirst g.pending (.pubrel i)
       | _ => g.pending := by
   unfold Ghost.stepOut
@@ -467,7 +557,8 @@ theorem stepOut_pending (g : Ghost) (r : Request) (o : Outcome) :
 theorem stepOut_static (g : Ghost) (r : Request) (o : Outcome) :
     (g.stepOut r o).limit = g.limit ∧ (g.stepOut r o).upper = g.upper ∧ (g.stepOut r o).ver = g.ver ∧
     (g.stepOut r o).manual = g.manual ∧ (g.stepOut r o).inQos2 = g.inQos2 ∧
-    (g.stepOut r o).gated = (g.gated && (g.loopOwn r || (isUserRequest r && g.gateOpen))) := by
+    (g.stepOut r o).gated = (g.gated && (g.loopOwn r || (isUserRequest r && g.gateOpen))) ∧
+    (g.stepOut r o).aliases = g.aliases := by
   unfold Ghost.stepOut
   cases r <;> simp only <;> (repeat' split) <;> simp
 
@@ -508,7 +599,6 @@ theorem sstepObs_view (s : State) (op : SOp) :
   unfold sstepObs sstepSt
   cases op <;> simp only [mkObs] <;> (try split) <;> simp
 
-
 theorem handleIncoming_maxInflight (s : State) (p : Incoming) :
     (handleIncoming s p).1.maxInflight =
       match s.ver, p with
@@ -526,10 +616,10 @@ theorem handleIncoming_maxInflight (s : State) (p : Incoming) :
   | publish q =>
     rw [(handlePublish_fields _ q).2.2.2.2.2.2.1]
     cases s.ver <;> rfl
-  | puback i r => rw [(handlePuback_incomingPub _ i r).2]; cases s.ver <;> rfl
-  | pubrec i r => rw [(handlePubrec_incomingPub _ i r).2]; cases s.ver <;> rfl
-  | pubrel i r => rw [(handlePubrel_fields _ i r).2.2.2.2.1]; cases s.ver <;> rfl
-  | pubcomp i r => rw [(handlePubcomp_fields _ i r).2.2.2.2.2.2.1]; cases s.ver <;> rfl
+  | puback i r => rw [(handlePuback_fields _ i).2.2.2.2.2.1]; cases s.ver <;> rfl
+  | pubrec i r => rw [(handlePubrec_fields _ i r).2.2.2.2.2.1]; cases s.ver <;> rfl
+  | pubrel i r => rw [(handlePubrel_fields _ i).2.2.2.2.1]; cases s.ver <;> rfl
+  | pubcomp i r => rw [(handlePubcomp_fields _ i).2.2.2.2.2.1]; cases s.ver <;> rfl
   | disconnect _ => simp only; cases hv : s.ver <;> simp [State.pushEv, hv]
   | pingresp => cases s.ver <;> rfl
   | suback _ => cases s.ver <;> rfl
@@ -558,8 +648,7 @@ theorem core_inc (g : Ghost) (s : State) (p : Incoming) :
 
 theorem core_clean (g : Ghost) (s : State) (h : cleanPanics s = false) :
     g.core (sstepObs s .clean) =
-      { g with pending := g.pending ++ cleanRequests s, unacked := [], rels := [], inQos2 := [],
-               inOrder := g.inOrder && g.pending.isEmpty,
+      { g with pending := cleanRequests s ++ g.pending, unacked := [], rels := [], inQos2 := [],
                pView := (sstepObs s .clean).view, pCol := (sstepObs s .clean).col, pInf := (sstepObs s .clean).inf } := by
   unfold Ghost.core; rw [sstepObs_op]
   simp [sstepObs, h, mkObs]
@@ -570,19 +659,44 @@ theorem core_drop (g : Ghost) (s : State) :
                pView := (sstepObs s .drop).view, pCol := (sstepObs s .drop).col, pInf := (sstepObs s .drop).inf } := by
   unfold Ghost.core; rw [sstepObs_op]
 
-/-- `GInv0` does not look at the diagnostics -/
-theorem GInv0.of_core {l : LState} {g : Ghost} {o : Obs} (h : GInv0 l (g.core o)) : GInv0 l (g.step o) := by
-  obtain ⟨a1, a2, a3, a4, a5, a6, a7, a8, a9, a10, a11, a12, a13⟩ := h
-  exact ⟨a1, a2, a3, a4, a5, a6, a7, a8, a9, a10, a11, a12, a13⟩
-
 theorem GInv0.relsOK {l : LState} {g : Ghost} (h : GInv0 l g) : RelsOK g.rels l.st := ⟨h.rels, h.relsNd, h.relsLen⟩
+
+theorem GInv0.windowOpen {l : LState} {g : Ghost} (h : GInv0 l g) : g.windowOpen = windowOpen l.st := by
+  unfold Ghost.windowOpen Client.windowOpen
+  rw [h.inf, h.lim, h.col]
+  cases hc : l.st.collision.isSome <;>
+    by_cases hi : l.st.inflight < l.st.maxInflight <;> simp_all <;> omega
 
 theorem GInv0.gateOpen {l : LState} {g : Ghost} (h : GInv0 l g) :
     g.gateOpen = (l.pending.isEmpty && selectEnabled l.st l.pending) := by
   unfold Ghost.gateOpen selectEnabled
-  rw [h.pend, h.inf, h.lim, h.col]
-  cases hp : l.pending.isEmpty <;> cases hc : l.st.collision.isSome <;>
-    by_cases hi : l.st.inflight < l.st.maxInflight <;> simp_all <;> omega
+  rw [h.pend, h.windowOpen]
+  cases hp : l.pending with
+  | nil => simp [pendingReady]
+  | cons r rest => simp
+
+/-- fields a (re)played publish leaves alone -/
+theorem outgoingPublish_fields (s : State) (p : Pub) :
+    (handleOutgoing s (.publish p)).1.outgoingRel = s.outgoingRel ∧
+    (handleOutgoing s (.publish p)).1.incomingPub = s.incomingPub ∧
+    (handleOutgoing s (.publish p)).1.maxInflight = s.maxInflight ∧
+    (handleOutgoing s (.publish p)).1.upperLimit = s.upperLimit ∧
+    (handleOutgoing s (.publish p)).1.ver = s.ver ∧
+    (handleOutgoing s (.publish p)).1.manualAcks = s.manualAcks ∧
+    (handleOutgoing s (.publish p)).1.aliases = s.aliases := by
+  simp only [handleOutgoing, outgoingPublish]
+  split
+  · simp
+  · split
+    · simp [publishTail, State.pushOut, State.pushEv]
+    · split
+      · split
+        · simp
+        · obtain ⟨a1, a2, a3, a4, a5, a6, a7, _⟩ := publishWithId_fields (nextPkidSt s) { p with pkid := nextPkidVal s }
+          obtain ⟨b1, b2, b3, b4, b5, b6, b7⟩ := nextPkidSt_fields s
+          exact ⟨a1.trans b1, a2.trans b2, a3.trans b3, a4.trans b4, a5.trans b5, a6.trans b6, a7.trans b7⟩
+      · obtain ⟨a1, a2, a3, a4, a5, a6, a7, _⟩ := publishWithId_fields s p
+        exact ⟨a1, a2, a3, a4, a5, a6, a7⟩
 
 /-- one operation of the loop keeps the ghost coupled -/
 theorem GInv0.lstep {l : LState} {g : Ghost} (h0 : Inv0 l) (hg : GInv0 l g) (op : LOp) :
@@ -592,7 +706,7 @@ theorem GInv0.lstep {l : LState} {g : Ghost} (h0 : Inv0 l) (hg : GInv0 l g) (op 
   obtain ⟨s, pd⟩ := l
   have hgate := hg.gateOpen
   have hR := hg.relsOK
-  obtain ⟨g1, g2, g3, g4, g5, g6, g7, g8, g9, g10, g11, g12, g13⟩ := hg
+  obtain ⟨g1, g2, g3, g4, g5, g6, g7, g8, g9, g10, g11, g12, g13, g14⟩ := hg
   simp only at *
   unfold Client.lstep
   cases op with
@@ -604,13 +718,13 @@ theorem GInv0.lstep {l : LState} {g : Ghost} (h0 : Inv0 l) (hg : GInv0 l g) (op 
       subst hpd
       obtain ⟨f1, f2, f3, f4, f5, f6, f7⟩ := user_frame s u
       obtain ⟨v1, v2, v3⟩ := sstepObs_view s (.out u.toRequest)
-      obtain ⟨t1, t2, t3, t4, t5, t6⟩ := stepOut_static g u.toRequest (sstepObs s (.out u.toRequest)).outcome
+      obtain ⟨t1, t2, t3, t4, t5, t6, t7⟩ := stepOut_static g u.toRequest (sstepObs s (.out u.toRequest)).outcome
       have hrels : (g.stepOut u.toRequest (sstepObs s (.out u.toRequest)).outcome).rels = g.rels := by
         rw [stepOut_rels]; cases u <;> rfl
       have hpend : (g.stepOut u.toRequest (sstepObs s (.out u.toRequest)).outcome).pending = [] := by
         rw [stepOut_pending, g1]; cases u <;> rfl
       have hR' : RelsOK g.rels (sstepSt s (.out u.toRequest)) := hR.congr (by simp [sstepSt, drainEvents, f1])
-      refine ⟨?_, v1, v2, v3, ?_, ?_, ?_, ?_, ?_, ?_, ?_, ?_, ?_⟩
+      refine ⟨?_, v1, v2, v3, ?_, ?_, ?_, ?_, ?_, ?_, ?_, ?_, ?_, ?_⟩
       all_goals simp only [core_out, lpending, sstepSt, drainEvents]
       · exact hpend
       · rw [t1, g5, f3]
@@ -622,48 +736,55 @@ theorem GInv0.lstep {l : LState} {g : Ghost} (h0 : Inv0 l) (hg : GInv0 l g) (op 
       · rw [hrels]; exact hR'.nd
       · rw [hrels]; exact hR'.len
       · rw [t5, f2]; exact g13
+      · rw [t7, f7]; exact g14
     · simp only [lop?, hc]
-      exact ⟨g1, g2, g3, g4, g5, g6, g7, g8, g9, g10, g11, g12, g13⟩
+      exact ⟨g1, g2, g3, g4, g5, g6, g7, g8, g9, g10, g11, g12, g13, g14⟩
   | pend =>
     cases pd with
-    | nil => exact ⟨g1, g2, g3, g4, g5, g6, g7, g8, g9, g10, g11, g12, g13⟩
+    | nil => exact ⟨g1, g2, g3, g4, g5, g6, g7, g8, g9, g10, g11, g12, g13, g14⟩
     | cons r rest =>
-      simp only [lop?]
+      by_cases hrd : pendingReady s (r :: rest) = true
+      case neg =>
+        simp only [lop?, hrd]
+        exact ⟨g1, g2, g3, g4, g5, g6, g7, g8, g9, g10, g11, g12, g13, g14⟩
+      simp only [lop?, hrd, if_true]
+      have hwin : g.windowOpen = Client.windowOpen s := by
+        unfold Ghost.windowOpen Client.windowOpen
+        rw [g4, g5, g3]
+        cases hc : s.collision.isSome <;> by_cases hi : s.inflight < s.maxInflight <;> simp_all <;> omega
       obtain ⟨v1, v2, v3⟩ := sstepObs_view s (.out r)
-      obtain ⟨t1, t2, t3, t4, t5, t6⟩ := stepOut_static g r (sstepObs s (.out r)).outcome
+      obtain ⟨t1, t2, t3, t4, t5, t6, t7⟩ := stepOut_static g r (sstepObs s (.out r)).outcome
       cases r with
       | publish p =>
-        obtain ⟨hq, h1, h2, ha, hslot, hinf, hne⟩ := h0.pend_publish
-        have heff := eff_publish_replay s p hq (by omega)
-        have heff2 := eff_publishWithId_store s p ha hslot hinf
-        have hst : sstepSt s (.out (.publish p)) =
-            drainEvents ({ s with outgoingPub := s.outgoingPub.set p.pkid (some p), inflight := s.inflight + 1 }.pushOut (.publish p.pkid)) := by
-          simp only [sstepSt, heff, heff2]
+        obtain ⟨f1, f2, f3, f4, f5, f6, f7⟩ := outgoingPublish_fields s p
         have hrels : (g.stepOut (.publish p) (sstepObs s (.out (.publish p))).outcome).rels = g.rels := by
           rw [stepOut_rels]
-        have hR' : RelsOK g.rels (sstepSt s (.out (.publish p))) := hR.congr (by rw [hst]; rfl)
-        refine ⟨?_, v1, v2, v3, ?_, ?_, ?_, ?_, ?_, ?_, ?_, ?_, ?_⟩
-        all_goals simp only [core_out, lpending, List.tail_cons]
-        · rw [stepOut_pending, g1]
-          have : (p.pkid == 0) = false := by simp; omega
-          simp [this, eraseFirst_head]
-        · rw [t1, g5, hst]; rfl
-        · rw [t2, g6, hst]; rfl
-        · rw [t3, g7, hst]; rfl
-        · rw [t4, g8, hst]; rfl
+        have hR' : RelsOK g.rels (sstepSt s (.out (.publish p))) := hR.congr (by simp [sstepSt, drainEvents, f1])
+        refine ⟨?_, v1, v2, v3, ?_, ?_, ?_, ?_, ?_, ?_, ?_, ?_, ?_, ?_⟩
+        all_goals simp only [core_out, lpending, List.tail_cons, sstepSt, drainEvents]
+        · rw [stepOut_pending, g1]; simp [eraseFirst_head]
+        · rw [t1, g5, f3]
+        · rw [t2, g6, f4]
+        · rw [t3, g7, f5]
+        · rw [t4, g8, f6]
         · rw [t6, g9]
           have : g.loopOwn (.publish p) = true := by
-            simp only [Ghost.loopOwn, g1]
-            have : (p.pkid != 0) = true := by simp; omega
-            simp [this]
+            simp only [pendingReady] at hrd
+            simp only [Ghost.loopOwn, g1, List.head?_cons, beq_self_eq_true, Bool.true_and, hwin]
+            exact hrd
           simp [this]
         · rw [hrels]; exact hR'.mem
         · rw [hrels]; exact hR'.nd
         · rw [hrels]; exact hR'.len
-        · rw [t5, hst]; exact g13
+        · rw [t5, f2]; exact g13
+        · rw [t7, f7]; exact g14
       | pubrel i =>
-        obtain ⟨h1, h2, hlt, hinf⟩ := h0.pend_pubrel
-        have heff := eff_pubrel_replay s i (by omega) hlt hinf
+        have h1 := h0.pendWF (.pubrel i) (by simp)
+        simp only [PendOK] at h1
+        have hw := h0.window; have hml := h0.maxLe; have hul := h0.upLe; have hlen := h0.sinv.lenRel
+        simp only [List.length_cons] at hw hml hul hlen
+        have hlt : i < s.outgoingRel.length := by omega
+        have heff := eff_pubrel_replay s i (by omega) hlt (by omega)
         have hst : sstepSt s (.out (.pubrel i)) =
             drainEvents ({ s with outgoingRel := s.outgoingRel.set i true, inflight := s.inflight + 1 }.pushOut (.pubrel i)) := by
           simp only [sstepSt, heff]
@@ -672,7 +793,7 @@ theorem GInv0.lstep {l : LState} {g : Ghost} (h0 : Inv0 l) (hg : GInv0 l g) (op 
         have hrels : (g.stepOut (.pubrel i) (sstepObs s (.out (.pubrel i))).outcome).rels = addRel g.rels i := by
           rw [stepOut_rels, hout]
         have hR' : RelsOK (addRel g.rels i) (sstepSt s (.out (.pubrel i))) := hR.set_true i hlt (by rw [hst]; rfl)
-        refine ⟨?_, v1, v2, v3, ?_, ?_, ?_, ?_, ?_, ?_, ?_, ?_, ?_⟩
+        refine ⟨?_, v1, v2, v3, ?_, ?_, ?_, ?_, ?_, ?_, ?_, ?_, ?_, ?_⟩
         all_goals simp only [core_out, lpending, List.tail_cons]
         · rw [stepOut_pending, g1]; simp [eraseFirst_head]
         · rw [t1, g5, hst]; rfl
@@ -686,6 +807,7 @@ theorem GInv0.lstep {l : LState} {g : Ghost} (h0 : Inv0 l) (hg : GInv0 l g) (op 
         · rw [hrels]; exact hR'.nd
         · rw [hrels]; exact hR'.len
         · rw [t5, hst]; exact g13
+        · rw [t7, hst]; exact g14
       | subscribe n => exact absurd (h0.pendWF (.subscribe n) (by simp)) (by simp [PendOK])
       | unsubscribe => exact absurd (h0.pendWF .unsubscribe (by simp)) (by simp [PendOK])
       | pingreq => exact absurd (h0.pendWF .pingreq (by simp)) (by simp [PendOK])
@@ -695,12 +817,12 @@ theorem GInv0.lstep {l : LState} {g : Ghost} (h0 : Inv0 l) (hg : GInv0 l g) (op 
       | other => exact absurd (h0.pendWF .other (by simp)) (by simp [PendOK])
   | ping =>
     simp only [lop?]
-    obtain ⟨f1, f2, f3, f4, f5, f6, f7, f8, f9, f10, f11⟩ := ping_frame s
+    obtain ⟨f1, f2, f3, f4, f5, f6, f7, f8, f9, f10, f11, f12, f13⟩ := ping_frame s
     obtain ⟨v1, v2, v3⟩ := sstepObs_view s (.out .pingreq)
-    obtain ⟨t1, t2, t3, t4, t5, t6⟩ := stepOut_static g .pingreq (sstepObs s (.out .pingreq)).outcome
+    obtain ⟨t1, t2, t3, t4, t5, t6, t7⟩ := stepOut_static g .pingreq (sstepObs s (.out .pingreq)).outcome
     have hrels : (g.stepOut .pingreq (sstepObs s (.out .pingreq)).outcome).rels = g.rels := by rw [stepOut_rels]
     have hR' : RelsOK g.rels (sstepSt s (.out .pingreq)) := hR.congr (by simp [sstepSt, drainEvents, f1])
-    refine ⟨?_, v1, v2, v3, ?_, ?_, ?_, ?_, ?_, ?_, ?_, ?_, ?_⟩
+    refine ⟨?_, v1, v2, v3, ?_, ?_, ?_, ?_, ?_, ?_, ?_, ?_, ?_, ?_⟩
     all_goals simp only [core_out, lpending, sstepSt, drainEvents]
     · rw [stepOut_pending, g1]
     · rw [t1, g5, f4]
@@ -712,6 +834,7 @@ theorem GInv0.lstep {l : LState} {g : Ghost} (h0 : Inv0 l) (hg : GInv0 l g) (op 
     · rw [hrels]; exact hR'.nd
     · rw [hrels]; exact hR'.len
     · rw [t5, f3]; exact g13
+    · rw [t7, f10]; exact g14
   | inc p =>
     simp only [lop?]
     obtain ⟨f1, f2, f3, f4⟩ := incoming_frame s p
@@ -720,8 +843,9 @@ theorem GInv0.lstep {l : LState} {g : Ghost} (h0 : Inv0 l) (hg : GInv0 l g) (op 
     obtain ⟨r1, r2, r3, r4, r5, r6⟩ := released_static (g.stepIn p) (handleIncoming s p).2
     obtain ⟨i1, i2, i3, i4, i5⟩ := stepIn_static g p
     have hR' := hR.handleIncoming h0.sinv p
-    have hq := q2_handleIncoming g.inQos2 s p g13
-    refine ⟨?_, v1, v2, v3, ?_, ?_, ?_, ?_, ?_, ?_, ?_, ?_, ?_⟩
+    have hq := q2_handleIncoming g s p g7 g14 g13
+    have hal := al_handleIncoming g s p g7 g14
+    refine ⟨?_, v1, v2, v3, ?_, ?_, ?_, ?_, ?_, ?_, ?_, ?_, ?_, ?_⟩
     all_goals simp only [core_inc, lpending, sstepSt, drainEvents, hout]
     · rw [r5, i4, g1]
     · rw [r1, stepIn_limit, handleIncoming_maxInflight, g7, g6, g5]
@@ -733,6 +857,7 @@ theorem GInv0.lstep {l : LState} {g : Ghost} (h0 : Inv0 l) (hg : GInv0 l g) (op 
     · rw [released_rels]; exact hR'.nd
     · rw [released_rels]; exact hR'.len
     · rw [stepIn_inQos2]; exact hq
+    · rw [stepIn_aliases]; exact hal
   | fail =>
     simp only [lop?]
     obtain ⟨v1, v2, v3⟩ := sstepObs_view s .clean
@@ -741,7 +866,7 @@ theorem GInv0.lstep {l : LState} {g : Ghost} (h0 : Inv0 l) (hg : GInv0 l g) (op 
     have hob : (sstepObs s .clean).outcome = .ok none ∧ (sstepObs s .clean).cleaned = cleanRequests s := by
       simp [sstepObs, hp, mkObs]
     have hR' := RelsOK.clean s
-    refine ⟨?_, v1, v2, v3, ?_, ?_, ?_, ?_, ?_, ?_, ?_, ?_, ?_⟩
+    refine ⟨?_, v1, v2, v3, ?_, ?_, ?_, ?_, ?_, ?_, ?_, ?_, ?_, ?_⟩
     all_goals simp only [core_clean g s hp, lpending, hob.2, hst]
     · rw [g1]
     · exact g5
@@ -753,10 +878,11 @@ theorem GInv0.lstep {l : LState} {g : Ghost} (h0 : Inv0 l) (hg : GInv0 l g) (op 
     · exact hR'.nd
     · exact hR'.len
     · simp [cleanState]
+    · exact g14
   | newSession =>
     simp only [lop?]
     obtain ⟨v1, v2, v3⟩ := sstepObs_view s .drop
-    refine ⟨?_, v1, v2, v3, ?_, ?_, ?_, ?_, ?_, ?_, ?_, ?_, ?_⟩
+    refine ⟨?_, v1, v2, v3, ?_, ?_, ?_, ?_, ?_, ?_, ?_, ?_, ?_, ?_⟩
     all_goals simp only [core_drop, lpending, sstepSt]
     · exact g5
     · exact g6
@@ -767,5 +893,6 @@ theorem GInv0.lstep {l : LState} {g : Ghost} (h0 : Inv0 l) (hg : GInv0 l g) (op 
     · exact g11
     · exact g12
     · exact g13
+    · exact g14
 
 end Client
